@@ -738,6 +738,7 @@ func init() {
 		return Struct{int64(0), t, (*Value)(nil)}
 	})
 	reg("time.Sleep", func(fr *frame, a []Value) Value { fr.w.stub("time.Sleep: returns at once"); return nil })
+	reg("time.runtimeNano", func(fr *frame, a []Value) Value { return int64(1000000000) })
 }
 
 // rare/pkg/logger: log output is not the subject of any property; the
